@@ -1,0 +1,13 @@
+//go:build verif
+
+// Contracts for package olric (comment-only; read by /verif/govc, never compiled into olric).
+
+package olric
+
+//@ func (db *Olric) clusterRoutingTableCommandHandler(conn redcon.Conn, cmd redcon.Command)
+//@   props C16
+//@   flag termination
+//@   flag skip nil
+//@   requires #args: len(cmd.Args) >= 1
+//@   loop 0 invariant #bounded: partID <= db.config.PartitionCount
+//@   loop 0 decreases db.config.PartitionCount - partID
